@@ -892,7 +892,7 @@ func execProgram(p *program, reduce, resources bool) (res engine.Result) {
 			if fs == nil {
 				// the body was never entered (that is compared through the trace); if the trace
 				// agreed with the reference and the reference did enter it, the capture is broken
-				if ex.streamMade[string(lv("fs", i))] && len(res.Failures) == 0 {
+				if ex.streamMade[string(lv("fs", i))] && len(res.Failures) == 0 && !hasSymTags(p) {
 					res.Fail("harness:stream-not-captured", src)
 				}
 				continue
@@ -1110,10 +1110,24 @@ func judge(res *engine.Result, b *built, ex *expectation, o *observation, tgt in
 			case rel == "inner":
 				// a form that the exit must abandon carried on (the target kind does not matter)
 				blamed = m.owner
+				at := ownerName(b, m) + "." + m.role
+				if again := seenBefore(o.trace[:i], o.trace[i]); again {
+					// an entry or cleanup marker that runs a second time: the loop around it
+					// (or the loop itself) started another iteration instead of passing the exit on
+					switch m.role {
+					case "pre", "head", "cleanup1", "cleanup2":
+						for l := m.owner; tgt < l && 0 <= l; l-- {
+							if isLoop(p.ctxs[l].kind) && (l < m.owner || m.role == "pre") {
+								blamed, at = l, p.ctxs[l].kind.sig+".next-iteration"
+								break
+							}
+						}
+					}
+				}
 				if coarse {
 					fail("continues", "", detail(what))
 				} else {
-					res.Fail("exit="+exitSig+" kind=continues at="+ownerName(b, m)+"."+m.role, detail(what))
+					res.Fail("exit="+exitSig+" kind=continues at="+at, detail(what))
 				}
 			case rel == "-":
 				fail("trace", "got="+ownerName(b, m)+"."+m.role+" want="+want, detail(what))
@@ -1154,6 +1168,15 @@ func judge(res *engine.Result, b *built, ex *expectation, o *observation, tgt in
 		fail("value", "want="+valueClass(b, expVal, tgt)+" got="+valueClass(b, got, tgt), detail("wrong value"))
 	}
 	return
+}
+
+func seenBefore(trace []string, key string) bool {
+	for _, k := range trace {
+		if k == key {
+			return true
+		}
+	}
+	return false
 }
 
 func elemOr(l []string, i int, alt string) string {
